@@ -32,8 +32,15 @@ def make_catalog(r, with_detcat=False):
         kw = {}
         if with_detcat:
             kw['detection_cat'] = SourceCatalog(img, segm, convolved_data=conv)
+        # with a WCS, so that the sky_* properties (SkyCoord objects: scalar for a single-source child) take part in the comparison
+        from astropy.wcs import WCS
+        w_ = WCS(naxis=2)
+        w_.wcs.crpix = [28.0, 24.0]
+        w_.wcs.cdelt = [-0.0003, 0.0003]
+        w_.wcs.crval = [150.0, 2.0]
+        w_.wcs.ctype = ['RA---TAN', 'DEC--TAN']
         cat = SourceCatalog(img * 1.0, segm, convolved_data=conv, error=err, background=np.full(img.shape, 0.1),
-                            localbkg_width=r.choice([0, 4]), **kw)
+                            localbkg_width=r.choice([0, 4]), wcs=w_, **kw)
     return cat, img
 
 
@@ -56,7 +63,7 @@ def canon(v):
     if v is None:
         return None
     if isinstance(v, SkyCoord):
-        return ('sky', canon(v.ra.deg), canon(v.dec.deg))
+        return ('sky', bool(v.isscalar), tuple(v.shape), canon(np.round(np.asarray(v.ra.deg), 12)), canon(np.round(np.asarray(v.dec.deg), 12)))
     if isinstance(v, u.Quantity):
         return ('q', str(v.unit), canon(v.value))
     if isinstance(v, np.ma.MaskedArray):
